@@ -4,6 +4,7 @@ import OptRs.Driver.Topology
 import OptRs.Driver.Perceive
 import OptRs.Driver.FF
 import OptRs.Driver.SD
+import OptRs.Driver.Xyz
 open OptRs.Driver
 
 partial def loop (h : IO.FS.Stream) (out : IO.FS.Stream) (f : String → String) : IO Unit := do
@@ -24,5 +25,7 @@ def main (args : List String) : IO UInt32 := do
   | ["perceive"] => loop stdin stdout perceiveLine; return 0
   | ["ff"] => loop stdin stdout ffLine; return 0
   | ["sd"] => loop stdin stdout sdLine; return 0
+  | ["xyz-read"] => loop stdin stdout xyzReadLine; return 0
+  | ["xyz-write"] => loop stdin stdout xyzWriteLine; return 0
   | ["atoms-oracle"] => loop stdin stdout AtomsOracle.check; return 0
   | _ => IO.eprintln "usage: optrs-model <stream>"; return 2
